@@ -64,6 +64,16 @@ func VC07Chunk() {
 		if errors.As(terr, &ic) {
 			vAssert(ttok == TokenInvalidChunk, "CRC mismatch surfaces as an invalid-chunk token when so configured")
 			vReach("invalid-chunk-token")
+			// a caller may go on lexing after the invalid-chunk token: nothing of the damaged chunk may then be served -
+			// what follows is what follows the damaged chunk in the intact file
+			lastOfChunk := first
+			for i := first; i < len(ref); i++ {
+				if ref[i].pos <= cend {
+					lastOfChunk = i + 1
+				}
+			}
+			rest, _ := vLexEventsFrom(vLexLastLexer, vLexLastSource)
+			vEventsPrefix(rest, ref[lastOfChunk:], false, "after the invalid-chunk token")
 		}
 	} else {
 		vAssert(ttok == TokenError, "error token")
